@@ -96,8 +96,10 @@ pub fn pop(abs: bool, l: &[Seg], rel_empty_may_stay: bool) -> Vec<Vec<Seg>> {
 		}
 		Some(_) => {
 			let r = l[..l.len() - 1].to_vec();
-			if r.len() == 1 && r[0].is_empty() {
-				// "root + one empty segment" has no plain text: identified with no segments
+			if r.len() == 1 && r[0].is_empty() && !abs {
+				// a relative path made of one empty segment has no plain text: identified with no
+				// segments. (An ABSOLUTE path keeps its lone empty segment: it is written "/./", and
+				// "/" would be a different path - the one `pop` must not produce from "//x".)
 				vec![r, vec![]]
 			} else {
 				vec![r]
